@@ -812,7 +812,7 @@ def recomputeImported (s : Ctx) : Ctx :=
     (`s1`: before the removal, `s2`: after it) -/
 def fixLatest (s1 s2 : Ctx) : Ctx :=
   let s3 := if s1.cfg.restoreLatest then restoreLatest (s1.mods.filter fun m => s1.creating.contains m.key) s2 else s2
-  if s1.cfg.recomputeImported && !s1.creating.isEmpty then recomputeImported s3 else s3
+  if s1.cfg.recomputeImported then recomputeImported s3 else s3
 
 /-- `lys_unres_glob_revert` -/
 def revert (s : Ctx) : Ctx :=
